@@ -29,7 +29,8 @@ CALLS = ("std::ops::FnMut::call_mut", "std::ops::Fn::call", "std::ops::FnOnce::c
 # Option combinators with a visible function argument: rewritten into the match they abbreviate
 OPTS = {"std::option::Option::map": "map", "std::option::Option::and_then": "and_then", "std::option::Option::is_some_and": "is_some_and",
         "std::option::Option::is_none_or": "is_none_or", "std::option::Option::filter": "filter", "std::option::Option::map_or": "map_or",
-        "std::option::Option::unwrap_or_else": "unwrap_or_else", "std::option::Option::map_or_else": "map_or_else", "std::option::Option::or_else": "or_else"}
+        "std::option::Option::unwrap_or_else": "unwrap_or_else", "std::option::Option::map_or_else": "map_or_else", "std::option::Option::or_else": "or_else",
+        "std::option::Option::unwrap_or_default": "unwrap_or_default", "std::option::Option::unwrap_or": "unwrap_or"}
 SEQ = ("std::vec::Vec", "std::collections::VecDeque")
 SETS = ("std::collections::HashSet", "std::collections::BTreeSet")
 MAPS = ("std::collections::HashMap", "std::collections::BTreeMap")
@@ -678,6 +679,25 @@ class Desugarer:
             return False
         oty = op.get("ty") or {}
         inner = (oty.get("targs") or [None])[0]
+        if kind in ("unwrap_or_default", "unwrap_or"):
+            # no function argument: Some(x) => x, None => the default (an explicit `Default::default()` call / the given value)
+            nblocks, nlocals, saved = len(self.blocks), len(self.locals), self._unreach
+            payload = {"move": P(op["l"], inner, list(op["p"]) + [{"dc": "Some"}, {"i": 0, "adt": "std::option::Option", "variant": "Some", "f": "0", "ty": (inner or {}).get("s", "?")}])}
+            done = self.new_block([], {"k": "goto", "t": target})
+            some_b = self.new_block([self.use(dest, payload, span)], {"k": "goto", "t": done})
+            if kind == "unwrap_or":
+                if len(t["args"]) < 2:
+                    return False
+                none_b = self.new_block([self.use(dest, t["args"][1], span)], {"k": "goto", "t": done})
+            else:
+                none_b = self.new_block([], self.call("std::default::Default::default", [], dest, done, span, self_ty=inner, trait="std::default::Default"))
+            dsc = self.new_local(ISIZE)
+            entry = self.new_block([self.assign(P(dsc, ISIZE), {"k": "discr", "place": P(op["l"], oty, op["p"]), "enum": "std::option::Option", "variants": {"0": "None", "1": "Some"}}, span)],
+                                   {"k": "switch", "op": {"move": P(dsc, ISIZE)}, "targets": [["0", none_b], ["1", some_b]], "otherwise": self.unreachable()})
+            blk["term"] = {"k": "goto", "t": entry, "desugared": t["callee"].get("path")}
+            self.changed = True
+            self._index()
+            return True
         fi = {"map": 1, "and_then": 1, "is_some_and": 1, "is_none_or": 1, "filter": 1, "map_or": 2, "unwrap_or_else": 1, "map_or_else": 2, "or_else": 1}[kind]
         if len(t["args"]) <= fi:
             return False
